@@ -55,6 +55,7 @@ type prodStep struct {
 	Hdrs   int    `json:"hdrs"`
 	BadEnc bool   `json:"badenc"`
 	NilVal bool   `json:"nilval"` // tombstone: nil Value, identity carried by the key
+	Ts     int    `json:"ts"`     // > 0: the application supplies the timestamp simT0 + ts ms
 }
 
 type vBadEncoder struct{}
@@ -480,6 +481,10 @@ func runProducerScenario(t testing.TB, rec *vRec, sc *prodScenario) {
 			sub := &simSubmitted{value: []byte(val), tsMs: -1}
 			if st.BadEnc {
 				m.Value = vBadEncoder{}
+			}
+			if st.Ts > 0 && v.IsAtLeast(V0_10_0_0) {
+				m.Timestamp = simT0.Add(time.Duration(st.Ts) * time.Millisecond)
+				sub.tsMs = m.Timestamp.UnixNano() / int64(time.Millisecond)
 			}
 			if st.NilVal {
 				m.Value = nil
